@@ -83,7 +83,12 @@ func registerVrt(m *Machine) {
 	m.natives[vrtPkg+"Choice"] = func(m *Machine, args []Value) Value {
 		name := m.strArg(args[0])
 		k := m.intArg(args[1])
-		v := m.choice(k)
+		var v int
+		if fv, ok := m.Cfg.Params["fix_"+name]; ok && fv < k {
+			v = fv // the driver splits the work on this choice
+		} else {
+			v = m.choice(k)
+		}
 		m.inputs = append(m.inputs, Input{Name: name, Kind: "choice", Val: int64(v)})
 		return m.i64(int64(v))
 	}
